@@ -10,8 +10,8 @@ used.  Here the table is tracked: read back (`l0r_readAtt`: the header table thr
 string) the elements `parseattachments` appends are the parts of `Model.parseAttachments`, at every depth, and the
 error flag is the list model's `none`.
 
-Hypothesis `l0r_bndNl`: no boundary the traversal works with contains a newline - exactly the condition under which
-`findboundary` and `Model.findBoundary` agree (L0RefineMime).
+No hypothesis on the boundaries: `findboundary` and `Model.findBoundary` agree for every boundary, also one that
+contains a newline (L0RefineMime); `l0r_witMsg` is the message that separated the former list model from message.c.
 -/
 
 namespace Mdsort.L0
@@ -89,40 +89,6 @@ theorem l0r_contentTypeName : contentTypeName = Model.contentTypeName := by deci
 
 theorem l0r_contentTypeName_no_nul : ∀ x ∈ contentTypeName, x ≠ 0 := by decide
 
-/-! ## the hypothesis: newline-free boundaries along the traversal -/
-
-/-- Along the `while (!term)` loop of `Model.partsLoop` every part satisfies `okf`. -/
-def l0r_partsNl (okf : Model.Msg → Bool) (subL : Model.Msg → Option (List Model.Msg)) (bnd : Bytes) :
-    Nat → Bytes → Bool
-  | 0, _ => true
-  | fuel + 1, text =>
-    match Model.findBoundary bnd text with
-    | none => true
-    | some (partText, term, fromLine) =>
-      okf (Model.parseHeaders partText) &&
-        (match subL (Model.parseHeaders partText) with
-         | none => true
-         | some _ => if term then true else l0r_partsNl okf subL bnd fuel (Model.skipLine fromLine))
-
-/-- No boundary that the traversal `Model.parseAttachments fuel m` works with contains a newline (byte 10).
-RFC 2046 boundaries never do; mdsort can obtain one from an RFC 2047 encoded word in the Content-Type value. -/
-def l0r_bndNl : Nat → Model.Msg → Bool
-  | 0, _ => true
-  | fuel + 1, m =>
-    match Model.getHeader1 m Model.contentTypeName with
-    | none => true
-    | some t =>
-      match Model.parseBoundary t with
-      | .ok bnd =>
-        !bnd.contains 10 &&
-          (match Model.findBoundary bnd m.body with
-           | none => true
-           | some (_, term, fromLine) =>
-             if term then true
-             else l0r_partsNl (l0r_bndNl fuel) (Model.parseAttachments fuel) bnd (m.body.length + 1)
-               (Model.skipLine fromLine))
-      | _ => true
-
 /-! ## parseattachments -/
 
 /-- How the table after `parseattachments` stands for the list model's result: the error flag is `none`; otherwise
@@ -133,12 +99,8 @@ def l0r_AttRel (v v' : Vec Att) (e : Bool) : Option (List Model.Msg) → Prop
 
 theorem l0r_findBoundary_at_delim {B rest : Bytes} {term : Bool} (h : Model.delimiterLine B rest = some term)
     (hne : rest ≠ []) : Model.findBoundary B rest = some ([], term, rest) := by
-  unfold Model.findBoundary
-  cases rest with
-  | nil => exact absurd rfl hne
-  | cons c r =>
-    rw [Proofs.findBoundaryAux_cons]
-    simp only [if_true, h]
+  have _ := hne
+  exact Proofs.findBoundaryAux_found h
 
 theorem l0r_skipLine_pos {b : Buf} {i : Nat} (h : b.HasNul i) :
     ∃ j, skipLine b i = .ok j ∧ i ≤ j ∧ b.HasNul j ∧ b.view j = Model.skipLine (b.view i) ∧
@@ -150,30 +112,27 @@ theorem l0r_skipLine_pos {b : Buf} {i : Nat} (h : b.HasNul i) :
 iteration finds the end of the part, appends the part, recurses into it, finds the same delimiter line again and
 skips it; this is one step of the list model's loop. -/
 theorem l0r_partsLoop_refines (sub : Vec Att → Ptr → M (Vec Att × Bool))
-    (subL : Model.Msg → Option (List Model.Msg)) (okf : Model.Msg → Bool)
-    (hsub : ∀ v p a, VecOk v → PtrOk v p → v.deref p = .ok a → okf (l0r_readAtt a) = true →
+    (subL : Model.Msg → Option (List Model.Msg))
+    (hsub : ∀ v p a, VecOk v → PtrOk v p → v.deref p = .ok a →
       ∃ v' e, sub v p = .ok (v', e) ∧ VecOk v' ∧ l0r_AttRel v v' e (subL (l0r_readAtt a)))
-    (bnd : Buf) (hb : bnd.HasNul 0) (hnl : 10 ∉ bnd.view 0) (m : Att) :
+    (bnd : Buf) (hb : bnd.HasNul 0) (m : Att) :
     ∀ (n bg : Nat) (v : Vec Att) (f : Nat), m.buf.size - bg = n → m.buf.HasNul bg → VecOk v →
-      (m.buf.view bg).length < f → l0r_partsNl okf subL (bnd.view 0) f (m.buf.view bg) = true →
+      (m.buf.view bg).length < f →
       ∃ v' e, partsLoop sub bnd m bg (some bg) v = .ok (v', e) ∧ VecOk v' ∧
         l0r_AttRel v v' e (Model.partsLoop subL (bnd.view 0) f (m.buf.view bg)) := by
   intro n
   induction n using Nat.strongRecOn with
   | _ n ih =>
-    intro bg v f hn hbg hv hf hnlp
+    intro bg v f hn hbg hv hf
     cases f with
     | zero => omega
     | succ f =>
-      rw [partsLoop_eq, l0r_findBoundary_refines bnd m.buf hb hnl hbg, Model.partsLoop]
-      rw [l0r_partsNl] at hnlp
+      rw [partsLoop_eq, l0r_findBoundary_refines bnd m.buf hb hbg, Model.partsLoop]
       cases hfb : Model.findBoundary (bnd.view 0) (m.buf.view bg) with
       | none => exact ⟨v, true, rfl, hv, rfl⟩
       | some x =>
         obtain ⟨pre, term, fromLine⟩ := x
-        rw [hfb] at hnlp
-        simp only [Option.map_some, l0r_shift, Bool.and_eq_true] at hnlp ⊢
-        obtain ⟨hokf, hnlp2⟩ := hnlp
+        simp only [Option.map_some, l0r_shift]
         obtain ⟨hnb, hvb, _, hne⟩ := l0r_findBoundary_pos hbg hfb
         obtain ⟨hsplit, _, hdelim⟩ := Proofs.SafetyAux.findBoundaryAux_split hfb
         -- the new element
@@ -213,7 +172,7 @@ theorem l0r_partsLoop_refines (sub : Vec Att → Ptr → M (Vec Att × Bool))
           unfold Vec.deref
           simp only [hgen, ne_eq, not_true_eq_false, if_false, hidx]
           simp
-        obtain ⟨v3, e3, hs3, hv3, hrel3⟩ := hsub _ p a hv2 hp2 hderef (by rw [hread]; exact hokf)
+        obtain ⟨v3, e3, hs3, hv3, hrel3⟩ := hsub _ p a hv2 hp2 hderef
         rw [hs3]
         rw [hread] at hrel3
         cases hsl : subL (Model.parseHeaders pre) with
@@ -223,7 +182,7 @@ theorem l0r_partsLoop_refines (sub : Vec Att → Ptr → M (Vec Att × Bool))
           subst this
           exact ⟨v3, true, rfl, hv3, rfl⟩
         | some nested =>
-          rw [hsl] at hrel3 hnlp2
+          rw [hsl] at hrel3
           obtain ⟨he3, hmap3⟩ := hrel3
           subst he3
           simp only [Array.toList_push, List.map_append, List.map_cons, List.map_nil, hread] at hmap3
@@ -233,9 +192,9 @@ theorem l0r_partsLoop_refines (sub : Vec Att → Ptr → M (Vec Att × Bool))
             refine ⟨v3, false, rfl, hv3, rfl, ?_⟩
             rw [hmap3]; simp
           | false =>
-            simp only [Bool.false_eq_true, if_false] at hnlp2 ⊢
+            simp only [Bool.false_eq_true, if_false]
             -- the same delimiter line again, with `beg == NULL`
-            rw [partsLoop_eq, l0r_findBoundary_refines bnd m.buf hb hnl hnb, hvb,
+            rw [partsLoop_eq, l0r_findBoundary_refines bnd m.buf hb hnb, hvb,
               l0r_findBoundary_at_delim hdelim hne]
             simp only [Option.map_some, l0r_shift, List.length_nil, Nat.add_zero]
             obtain ⟨b', hb', hle', hnb', hvb', hgt'⟩ := l0r_skipLine_pos hnb
@@ -251,7 +210,7 @@ theorem l0r_partsLoop_refines (sub : Vec Att → Ptr → M (Vec Att × Bool))
             rw [hvb] at hvb'
             have hnb'lt := hnb'.lt
             obtain ⟨v4, e4, hr4, hv4, hrel4⟩ := ih (m.buf.size - b') (by omega) b' v3 f rfl hnb' hv3
-              (by rw [hvb']; omega) (by rw [hvb']; exact hnlp2)
+              (by rw [hvb']; omega)
             rw [hvb'] at hrel4
             refine ⟨v4, e4, hr4, hv4, ?_⟩
             cases hpl : Model.partsLoop subL (bnd.view 0) f (Model.skipLine fromLine) with
@@ -268,22 +227,20 @@ theorem l0r_partsLoop_refines (sub : Vec Att → Ptr → M (Vec Att × Bool))
 back, are the list model's parts (pre-order). -/
 theorem l0r_parseAttachments_refines (root : Att) (hr : AttOk root) :
     ∀ (fuel : Nat) (v : Vec Att) (msg : MsgRef) (m : Att), VecOk v → RefOk v msg → derefMsg root v msg = .ok m →
-      l0r_bndNl fuel (l0r_readAtt m) = true →
       ∃ v' e, parseAttachments fuel root v msg = .ok (v', e) ∧ VecOk v' ∧
         l0r_AttRel v v' e (Model.parseAttachments fuel (l0r_readAtt m)) := by
   intro fuel
   induction fuel with
   | zero =>
-    intro v msg m hv hm hd _
+    intro v msg m hv hm hd
     rw [parseAttachments, hd]
     exact ⟨v, true, rfl, hv, rfl⟩
   | succ fuel ih =>
-    intro v msg m hv hm hd hnl
+    intro v msg m hv hm hd
     obtain ⟨m', hd', hma⟩ := derefMsg_ok root hr v hv msg hm
     rw [hd] at hd'
     cases hd'
     rw [parseAttachments, hd, Model.parseAttachments]
-    rw [l0r_bndNl] at hnl
     simp only
     obtain ⟨r, hg, ht, hmapr⟩ := l0r_getHeader1_refines m hma.2 contentTypeName l0r_contentTypeName_no_nul
     rw [l0r_contentTypeName] at hmapr
@@ -295,8 +252,8 @@ theorem l0r_parseAttachments_refines (root : Att) (hr : AttOk root) :
       exact ⟨v, false, rfl, hv, rfl, by simp⟩
     | some type =>
       simp only [Option.map_some] at hmapr
-      rw [← hmapr] at hnl ⊢
-      simp only at hnl ⊢
+      rw [← hmapr]
+      simp only
       have htn := (ht type rfl).hasNul0
       obtain ⟨rb, hpb, hbrel⟩ := l0r_parseBoundary_refines type htn
       rw [hpb]
@@ -314,30 +271,23 @@ theorem l0r_parseAttachments_refines (root : Att) (hr : AttOk root) :
         | invalid => exact ⟨v, true, rfl, hv, rfl⟩
         | ok bnd => exact hbrel.elim
       | ok bb =>
-        rw [hmb] at hbrel hnl
+        rw [hmb] at hbrel
         cases rb with
         | notMultipart => exact hbrel.elim
         | invalid => exact hbrel.elim
         | ok bnd =>
           obtain ⟨hbeq, hbview⟩ := hbrel
-          simp only [Bool.and_eq_true] at hnl
-          obtain ⟨hnl1, hnl2⟩ := hnl
           have hb0 : bnd.HasNul 0 := by rw [hbeq]; exact (ofBytes_terminated bb).hasNul0
-          have hnl10 : 10 ∉ bnd.view 0 := by
-            rw [hbview]; intro hmem
-            have : bb.contains 10 = true := List.contains_iff_mem.mpr hmem
-            rw [this] at hnl1; simp at hnl1
           simp only
           have hbody : (l0r_readAtt m).body = m.buf.view m.body := rfl
-          rw [hbody] at hnl2 ⊢
+          rw [hbody]
           -- the opening delimiter: `beg == NULL`
-          rw [partsLoop_eq, l0r_findBoundary_refines bnd m.buf hb0 hnl10 hma.1, hbview]
+          rw [partsLoop_eq, l0r_findBoundary_refines bnd m.buf hb0 hma.1, hbview]
           cases hfb : Model.findBoundary bb (m.buf.view m.body) with
           | none => exact ⟨v, true, rfl, hv, rfl⟩
           | some x =>
             obtain ⟨pre, term, fromLine⟩ := x
-            rw [hfb] at hnl2
-            simp only [Option.map_some, l0r_shift] at hnl2 ⊢
+            simp only [Option.map_some, l0r_shift]
             obtain ⟨hnb, hvb, _, hne⟩ := l0r_findBoundary_pos hma.1 hfb
             obtain ⟨hsplit, _⟩ := Proofs.findBoundary_split _ _ _ _ _ hfb
             obtain ⟨b', hb', _, hnb', hvb', _⟩ := l0r_skipLine_pos hnb
@@ -346,28 +296,27 @@ theorem l0r_parseAttachments_refines (root : Att) (hr : AttOk root) :
             cases term with
             | true => exact ⟨v, false, rfl, hv, rfl, by simp⟩
             | false =>
-              simp only [Bool.false_eq_true, if_false] at hnl2 ⊢
+              simp only [Bool.false_eq_true, if_false]
               rw [hvb] at hvb'
               have hlen : (m.buf.view m.body).length = pre.length + fromLine.length := by rw [hsplit]; simp
               have hsklt := Proofs.SafetyAux.skipLine_lt hne
               have := l0r_partsLoop_refines (fun v' p => parseAttachments fuel root v' (.att p))
-                (Model.parseAttachments fuel) (l0r_bndNl fuel)
-                (fun v' p a hv' hp' hda hok => ih v' (.att p) a hv' hp' hda hok)
-                bnd hb0 hnl10 m (m.buf.size - b') b' v (m.buf.view m.body).length.succ rfl hnb' hv
-                (by rw [hvb']; omega) (by rw [hvb', hbview]; exact hnl2)
+                (Model.parseAttachments fuel)
+                (fun v' p a hv' hp' hda => ih v' (.att p) a hv' hp' hda)
+                bnd hb0 m (m.buf.size - b') b' v (m.buf.view m.body).length.succ rfl hnb' hv
+                (by rw [hvb']; omega)
               rw [hvb', hbview] at this
               exact this
 
 /-- `message_get_attachments` refines the list model. -/
-theorem l0r_getAttachments_refines (root : Att) (hr : AttOk root)
-    (hnl : l0r_bndNl (Gen.mimeDepthLimit + 1) (l0r_readAtt root) = true) :
+theorem l0r_getAttachments_refines (root : Att) (hr : AttOk root) :
     ∃ r, getAttachments root = .ok r ∧
       r.map (fun a => a.toList.map l0r_readAtt) = Model.getAttachments (l0r_readAtt root) := by
   unfold getAttachments Model.getAttachments
   have h5 : Gen.mimeDepthLimit + 1 = 5 := rfl
-  rw [h5] at hnl ⊢
+  rw [h5]
   obtain ⟨v', e, h, _, hrel⟩ := l0r_parseAttachments_refines root hr 5 Vec.init .root root
-    (by intro a ha; simp [Vec.init] at ha) trivial rfl hnl
+    (by intro a ha; simp [Vec.init] at ha) trivial rfl
   rw [h]
   cases hm : Model.parseAttachments 5 (l0r_readAtt root) with
   | none =>
@@ -386,8 +335,7 @@ theorem l0r_getAttachments_refines (root : Att) (hr : AttOk root)
 
 /-- A whole message: `message_parse_headers` then `message_get_attachments` on a NUL-terminated buffer compute the
 list model's message and its attachments. -/
-theorem l0r_message_refines (b : Buf) (ht : b.Terminated) (path : Bytes)
-    (hnl : l0r_bndNl (Gen.mimeDepthLimit + 1) (Model.parseHeaders (b.view 0)) = true) :
+theorem l0r_message_refines (b : Buf) (ht : b.Terminated) (path : Bytes) :
     ∃ b' hs body r, messageParseHeaders b = .ok (b', hs, body) ∧
       l0r_readAtt { buf := b', headers := hs, body := body, path := path } = Model.parseHeaders (b.view 0) ∧
       getAttachments { buf := b', headers := hs, body := body, path := path } = .ok r ∧
@@ -396,17 +344,21 @@ theorem l0r_message_refines (b : Buf) (ht : b.Terminated) (path : Bytes)
   have hread : l0r_readAtt { buf := b', headers := hs, body := body, path := path } = Model.parseHeaders (b.view 0) :=
     hpart.symm
   obtain ⟨r, hr, hmap⟩ := l0r_getAttachments_refines { buf := b', headers := hs, body := body, path := path }
-    ⟨hnb, hin⟩ (by rw [hread]; exact hnl)
+    ⟨hnb, hin⟩
   rw [hread] at hmap
   exact ⟨b', hs, body, r, hp, hread, hr, hmap⟩
 
-/-! ## without the hypothesis the statement is false -/
+/-! ## a message whose boundary contains a newline -/
 
-/-- The refinement of `message_get_attachments` for every file (no hypothesis on the boundaries). -/
-def l0r_message_refines_unrestricted : Prop :=
-  ∀ file : Bytes, ∃ b' hs body r, messageParseHeaders (Buf.ofBytes file) = .ok (b', hs, body) ∧
-    getAttachments { buf := b', headers := hs, body := body, path := [] } = .ok r ∧
-    r.map (fun a => a.toList.map l0r_readAtt) = Model.getAttachments (Model.parseMessage file)
+/-- `message_parse` of a file, then `message_get_attachments`: the list model's message and attachments, for every
+file (no hypothesis on the boundaries). -/
+theorem l0r_file_refines (file : Bytes) :
+    ∃ b' hs body r, messageParseHeaders (Buf.ofBytes file) = .ok (b', hs, body) ∧
+      getAttachments { buf := b', headers := hs, body := body, path := [] } = .ok r ∧
+      r.map (fun a => a.toList.map l0r_readAtt) = Model.getAttachments (Model.parseMessage file) := by
+  obtain ⟨b', hs, body, r, h1, _, h3, h4⟩ := l0r_message_refines (Buf.ofBytes file) (ofBytes_terminated file) []
+  rw [view_ofBytes] at h4
+  exact ⟨b', hs, body, r, h1, h3, h4⟩
 
 /-- Number of attachments the index-level code finds in a file (`none`: NULL, or a fault). -/
 def l0r_partsCount (file : Bytes) : Option Nat :=
@@ -419,28 +371,26 @@ def l0r_partsCount (file : Bytes) : Option Nat :=
 
 /-- A message whose boundary is `"a\n"` (through an RFC 2047 encoded word).  message.c finds no part in it (the
 only delimiter line it accepts is the terminator `"--a\n--\n"`; checked on the real binary: `attachment body /found/`
-does not match), the list model finds one part with the body `"X: y\n\nfound\n"`. -/
+does not match); so do the index-level code and the list model (the former list model, which examined every line
+start, found one part with the body `"X: y\n\nfound\n"`). -/
 def l0r_witMsg : Bytes :=
   ofString "Content-Type: multipart/mixed; boundary=\"=?UTF-8?Q?a=0A?=\"\n\n--a\n--a\n\nX: y\n\nfound\n--a\n--\n"
 
 theorem l0r_witMsg_L0 : l0r_partsCount l0r_witMsg = some 0 := by decide +kernel
 
-theorem l0r_witMsg_L1 : (Model.getAttachments (Model.parseMessage l0r_witMsg)).map List.length = some 1 := by
+theorem l0r_witMsg_L1 : Model.getAttachments (Model.parseMessage l0r_witMsg) = some [] := by
   decide +kernel
 
-theorem l0r_message_newline_witness : ¬ l0r_message_refines_unrestricted := by
-  intro hall
-  obtain ⟨b', hs, body, r, h1, h2, h3⟩ := hall l0r_witMsg
-  have hL0 := l0r_witMsg_L0
-  unfold l0r_partsCount at hL0
-  rw [h1] at hL0
-  simp only [h2] at hL0
-  have hL1 := l0r_witMsg_L1
-  rw [← h3] at hL1
-  cases r with
-  | none => simp at hL0
-  | some v =>
-    simp only [Option.some.injEq] at hL0
-    simp [hL0] at hL1
+/-- The boundary of `l0r_witMsg` contains a newline. -/
+theorem l0r_witMsg_boundary :
+    (Model.getHeader1 (Model.parseMessage l0r_witMsg) Model.contentTypeName).map Model.parseBoundary =
+      some (.ok [97, 10]) := by
+  decide +kernel
+
+/-- On it both levels find no part (and no error). -/
+theorem l0r_message_newline_example :
+    l0r_partsCount l0r_witMsg = (Model.getAttachments (Model.parseMessage l0r_witMsg)).map List.length := by
+  rw [l0r_witMsg_L0, l0r_witMsg_L1]
+  rfl
 
 end Mdsort.L0
